@@ -203,3 +203,58 @@ def derives_from_call_at(g, fn, use_node, expr, pred, depth: int = 4) -> bool:
         return False
     return True
   return False
+
+
+def reaching_defs_flagaware(g, use_node, name: str, max_states: int = 20000):
+  """Definitions of `name` reaching use_node along *feasible* paths, where
+  feasibility prunes branches on boolean flag locals that were assigned
+  constants (`copied = True` ... `if not copied:`).  Returns a list of
+  (def_node | None, value_expr | None); None def = parameter/undefined."""
+  # boolean flags: locals only ever assigned True/False constants
+  flag_vals: Dict[str, bool] = {}
+  assigned: Dict[str, List[Optional[ast.AST]]] = {}
+  for n in g.nodes:
+    for nm, v in node_defs(n).items():
+      assigned.setdefault(nm, []).append(v)
+  flags = {nm for nm, vs in assigned.items()
+           if vs and all(isinstance(v, ast.Constant) and isinstance(v.value, bool) for v in vs)}
+  out = {}
+  seen = set()
+  stack = [(g.entry, (), None)]
+  count = 0
+  while stack:
+    node, fstate, cur = stack.pop()
+    key = (node.id, fstate, cur)
+    if key in seen:
+      continue
+    seen.add(key)
+    count += 1
+    if count > max_states:
+      raise RuntimeError('flag-aware reaching definitions: state bound exceeded')
+    if node is use_node:
+      out[cur] = True
+      continue
+    fs = dict(fstate)
+    d = node_defs(node)
+    for nm, v in d.items():
+      if nm in flags and isinstance(v, ast.Constant):
+        fs[nm] = v.value
+    if name in d:
+      cur = node.id
+    nstate = tuple(sorted(fs.items()))
+    for m, lab in node.succ:
+      if lab == 'exc' and node.kind not in ('pad', 'raisestmt'):
+        continue
+      if node.kind == 'test' and isinstance(node.ast, ast.Name) and node.ast.id in fs:
+        want = fs[node.ast.id]
+        if (lab == 'true') != want:
+          continue
+      stack.append((m, nstate, cur))
+  res = []
+  for cur in out:
+    if cur is None:
+      res.append((None, None))
+    else:
+      dn = g.nodes[cur]
+      res.append((dn, node_defs(dn).get(name)))
+  return res
